@@ -174,4 +174,15 @@ PROPS["C09"] = {
     "assumptions": ["identifiers are ASCII"],
 }
 
+PROPS["C11"] = {
+    "module": "CqlVerif.Props.C11",
+    "streams": [{"name": "codec", "quick": 6000, "thorough": 400000}],
+    "shrink": False,
+    "claim": "Lean theorems agree_query / agree_execute / agree_batch (partial decoding of every valid body - any sizes in range, any parameters, with and without result-metadata id, any number and kind of batch children - returns exactly the fields written, so re-encoding reproduces the bytes), reencode_execute (for every byte string the decoder accepts), decode_total, over Model/Wire + Model/PartialCodec; tied to codecs/partial_codecs.go and to the reference codec by the codec stream (reference-generated bodies over the full option space x v3/v4/v5/DSEv1/DSEv2, prefixes, single-byte mutations, random bytes; panics caught)",
+    "note": "trusted: Lean kernel, hand-written primitives/codec model (validated against the real partial codecs on every run), the pinned go-cassandra-native-protocol library as the definition of 'valid body' (its head-field layout is checked by the Agrees oracle on every run, not proved)",
+    "rule": "codec: bodies encoded by the reference codec from generated QUERY/EXECUTE/BATCH messages (all QueryOptions flags, named/positional/null/unset/empty values, paging state, serial consistency, timestamps, keyspace, now-in-seconds, continuous paging, 0-4 batch children of both kinds) for each of the five versions, plus prefixes (all prefixes in thorough), byte mutations and random bytes; compared: partial decode fields / error, re-encoded bytes, EncodedLength; Agrees oracle vs the reference decoder; distinct = distinct (version, opcode, body)",
+    "trusted_base": [KERNEL, DRIVER, HARNESS, "Model/Wire.lean, Model/PartialCodec.lean hand-written"],
+    "assumptions": ["[long string] lengths are non-negative in valid bodies (the reference encoder never writes a negative length)"],
+}
+
 NOT_APPLICABLE = {}
